@@ -33,6 +33,7 @@ import (
 
 	simapp "github.com/provenance-io/provenance/app"
 	"github.com/provenance-io/provenance/internal/pioconfig"
+	"github.com/provenance-io/provenance/x/exchange"
 	msgfeestypes "github.com/provenance-io/provenance/x/msgfees/types"
 )
 
@@ -44,9 +45,11 @@ const (
 )
 
 // denoms and their ids in the Coq terms
-var c08Denoms = []string{"feecoin", "hotdog", "xfer"} // none is the bond denom: block inflation never touches them
+var c08Denoms = []string{"feecoin", "hotdog", "xfer", "paycoin"} // none is the bond denom: block inflation never touches them
 
-const c08UsdID = 4
+const c08UsdID = 7
+
+const c08NDen = 4 // len(c08Denoms); paycoin is moved (and put on hold) only by x/exchange payments
 
 func c08DenomID(d string) int {
 	for i, x := range c08Denoms {
@@ -65,12 +68,17 @@ const (
 	c08Send   = 1
 	c08Exec   = 2
 	c08Assess = 3
+	// x/exchange payments: their handlers record a flat fee on the fee gas meter themselves
+	c08PayCreate = 4
+	c08PayAccept = 5
 )
 
 var c08TypeURL = map[int]string{
 	c08Send:   sdk.MsgTypeURL(&banktypes.MsgSend{}),
 	c08Exec:   sdk.MsgTypeURL(&authz.MsgExec{}),
 	c08Assess: sdk.MsgTypeURL(&msgfeestypes.MsgAssessCustomMsgFeeRequest{}),
+	c08PayCreate: sdk.MsgTypeURL(&exchange.MsgCreatePaymentRequest{}),
+	c08PayAccept: sdk.MsgTypeURL(&exchange.MsgAcceptPaymentRequest{}),
 }
 
 type c08Acct struct {
@@ -89,11 +97,22 @@ type c08Net struct {
 	distr  sdk.AccAddress
 	// message authorizations (authz) granted at start: authzOK[granter][grantee]
 	authzOK [c08NAcc][c08NAcc]bool
+	// open x/exchange payments as the harness knows them: key = source id / external id
+	payments map[string]c08Payment
+	payCount int
 }
+
+type c08Payment struct {
+	source, target int
+	srcAmt, tgtAmt sdk.Coins
+	extID          string
+}
+
+func (p c08Payment) key() string { return fmt.Sprintf("%d/%s", p.source, p.extID) }
 
 func c08NewNet(t *testing.T) *c08Net {
 	pioconfig.SetProvenanceConfig(sdk.DefaultBondDenom, 1)
-	n := &c08Net{t: t}
+	n := &c08Net{t: t, payments: map[string]c08Payment{}}
 	for i := 0; i < c08NAcc; i++ {
 		priv := secp256k1.GenPrivKeyFromSecret([]byte(fmt.Sprintf("verif-c08-key-%d", i)))
 		n.accts = append(n.accts, c08Acct{priv: priv, addr: sdk.AccAddress(priv.PubKey().Address())})
@@ -105,7 +124,7 @@ func c08NewNet(t *testing.T) *c08Net {
 	for i, a := range n.accts {
 		gen = append(gen, authtypes.NewBaseAccount(a.addr, a.priv.PubKey(), uint64(i), 0))
 		bals = append(bals, banktypes.Balance{Address: a.addr.String(), Coins: sdk.NewCoins(
-			sdk.NewInt64Coin(c08Denoms[0], 1_000_000_000_000_000), sdk.NewInt64Coin(c08Denoms[1], 1_000_000_000), sdk.NewInt64Coin(c08Denoms[2], 1_000_000_000))})
+			sdk.NewInt64Coin(c08Denoms[0], 1_000_000_000_000_000), sdk.NewInt64Coin(c08Denoms[1], 1_000_000_000), sdk.NewInt64Coin(c08Denoms[3], 1_000_000_000), sdk.NewInt64Coin(c08Denoms[2], 1_000_000_000))})
 	}
 	n.app = simapp.SetupWithGenesisAccounts(t, c08Chain, gen, bals...)
 	n.height = n.app.LastBlockHeight() + 1 // the block opened by the setup
@@ -176,7 +195,7 @@ type c08Allow struct {
 }
 
 type c08State struct {
-	bal   [c08NAcc + 1][3]sdkmath.Int // account id (0 = fee collector + distribution) x denom
+	bal   [c08NAcc + 1][c08NDen]sdkmath.Int // account id (0 = fee collector + distribution) x denom
 	seq   [c08NAcc]uint64
 	allow [c08NAcc][c08NAcc]c08Allow // [granter][grantee]
 }
@@ -236,7 +255,7 @@ func c08AllowTerm(a c08Allow) string {
 func (s *c08State) balTerm() string {
 	var it []string
 	for a := 0; a <= c08NAcc; a++ {
-		for d := 0; d < 3; d++ {
+		for d := 0; d < c08NDen; d++ {
 			if !s.bal[a][d].IsZero() {
 				it = append(it, fmt.Sprintf("(%s, %s, %s)", c08N(a), c08N(d+1), zInt(s.bal[a][d])))
 			}
@@ -311,6 +330,7 @@ type c08Config struct {
 	schedule []c08FeeEntry
 	floor    sdk.Coin
 	perMil   uint64
+	payCreate, payAccept sdk.Coins // exchange params FeeCreatePaymentFlat / FeeAcceptPaymentFlat (empty = none); not part of the Coq config: the fee appears on the routed message
 	shared   int // when > 0: the recipient that several fee sources of this configuration name (not part of the Coq term)
 }
 
@@ -340,6 +360,10 @@ func (n *c08Net) applyConfig(ctx sdk.Context, c *c08Config) {
 		}
 	}
 	n.app.MsgFeesKeeper.SetParams(ctx, msgfeestypes.Params{FloorGasPrice: c.floor, NhashPerUsdMil: c.perMil, ConversionFeeDenom: c08Denoms[0]})
+	ep := exchange.DefaultParams()
+	ep.FeeCreatePaymentFlat = c.payCreate
+	ep.FeeAcceptPaymentFlat = c.payAccept
+	n.app.ExchangeKeeper.SetParams(ctx, ep)
 }
 
 var c08Bips = []uint32{0, 1, 2500, 3333, 5000, 9999, 10000}
@@ -357,6 +381,17 @@ func c08GenConfig(r *rand.Rand) *c08Config {
 		c.floor = sdk.NewInt64Coin(c08Denoms[0], int64(1+r.Intn(5)))
 	}
 	c.perMil = []uint64{1, 7, 25, 1000}[r.Intn(4)]
+	payFee := func() sdk.Coins {
+		switch r.Intn(8) {
+		case 0:
+			return nil
+		case 1:
+			return sdk.Coins{sdk.NewInt64Coin(c08Denoms[1], int64(1+r.Intn(500)))}
+		default:
+			return sdk.Coins{sdk.NewInt64Coin(c08Denoms[0], []int64{1, 2, 10, 1000, 80_000, 10_000_000}[r.Intn(6)])}
+		}
+	}
+	c.payCreate, c.payAccept = payFee(), payFee()
 	// in half of the configurations several message types (and custom assessed fees) pay the SAME
 	// recipient, so that one transaction accumulates shares for one address from different sources
 	if r.Intn(2) == 0 {
@@ -366,8 +401,8 @@ func c08GenConfig(r *rand.Rand) *c08Config {
 	if c.shared > 0 {
 		present = 80
 	}
-	for _, k := range []int{c08Send, c08Exec, c08Assess} {
-		if r.Intn(100) >= present {
+	for _, k := range []int{c08Send, c08Exec, c08Assess, c08PayCreate} {
+		if r.Intn(100) >= present || (k == c08PayCreate && r.Intn(2) == 0) {
 			continue
 		}
 		e := c08FeeEntry{kind: k}
@@ -406,12 +441,24 @@ type c08Msg struct {
 	amount    sdk.Coin
 	recipient int
 	bips      string
+	// x/exchange payment messages: the payment, what the harness expects of the handler, and the
+	// fee the handler then records on the meter itself
+	pay    c08Payment
+	payOK  bool
+	post   sdk.Coins
 }
 
 func (n *c08Net) sdkMsg(m c08Msg) sdk.Msg {
 	switch m.kind {
 	case c08Send:
 		return &banktypes.MsgSend{FromAddress: n.addrOf(m.from).String(), ToAddress: n.addrOf(m.to).String(), Amount: m.coins}
+	case c08PayCreate, c08PayAccept:
+		pm := exchange.Payment{Source: n.addrOf(m.pay.source).String(), SourceAmount: m.pay.srcAmt,
+			Target: n.addrOf(m.pay.target).String(), TargetAmount: m.pay.tgtAmt, ExternalId: m.pay.extID}
+		if m.kind == c08PayCreate {
+			return &exchange.MsgCreatePaymentRequest{Payment: pm}
+		}
+		return &exchange.MsgAcceptPaymentRequest{Payment: pm}
 	case c08Exec:
 		var in []sdk.Msg
 		for _, x := range m.inner {
@@ -434,13 +481,25 @@ func (n *c08Net) sdkMsg(m c08Msg) sdk.Msg {
 func (n *c08Net) routedTerms(m c08Msg, grantee int) []string {
 	if grantee > 0 && grantee != m.from && !(m.kind != c08Exec && n.authzOK[m.from-1][grantee-1]) {
 		// no authorization: the dispatch fails before the message is routed
-		return []string{fmt.Sprintf("(Rt %s None (ANop false))", c08N(m.kind))}
+		return []string{fmt.Sprintf("(Rt %s None (ANop false) [])", c08N(m.kind))}
 	}
 	switch m.kind {
+	case c08PayCreate, c08PayAccept:
+		var mv []string
+		if m.kind == c08PayAccept && m.payOK {
+			// accepting swaps the two amounts (the hold on the source amount is released first)
+			if !m.pay.srcAmt.IsZero() {
+				mv = append(mv, fmt.Sprintf("(Build_move %s %s %s)", c08N(m.pay.source), c08N(m.pay.target), c08Coins(m.pay.srcAmt)))
+			}
+			if !m.pay.tgtAmt.IsZero() {
+				mv = append(mv, fmt.Sprintf("(Build_move %s %s %s)", c08N(m.pay.target), c08N(m.pay.source), c08Coins(m.pay.tgtAmt)))
+			}
+		}
+		return []string{fmt.Sprintf("(Rt %s None (AExt %s %s) %s)", c08N(m.kind), coqBool(m.payOK), coqList(mv), c08Coins(m.post))}
 	case c08Send:
-		return []string{fmt.Sprintf("(Rt %s None (ASend %s %s %s))", c08N(c08Send), c08N(m.from), c08N(m.to), c08Coins(m.coins))}
+		return []string{fmt.Sprintf("(Rt %s None (ASend %s %s %s) [])", c08N(c08Send), c08N(m.from), c08N(m.to), c08Coins(m.coins))}
 	case c08Exec:
-		out := []string{fmt.Sprintf("(Rt %s None (ANop true))", c08N(c08Exec))}
+		out := []string{fmt.Sprintf("(Rt %s None (ANop true) [])", c08N(c08Exec))}
 		for _, x := range m.inner {
 			out = append(out, n.routedTerms(x, m.from)...)
 		}
@@ -454,7 +513,7 @@ func (n *c08Net) routedTerms(m c08Msg, grantee int) []string {
 		if m.bips != "" {
 			bp = "(Some " + m.bips + ")"
 		}
-		return []string{fmt.Sprintf("(Rt %s (Some (Cu %s %s %s)) (ANop true))", c08N(c08Assess), c08Coin(m.amount), rc, bp)}
+		return []string{fmt.Sprintf("(Rt %s (Some (Cu %s %s %s)) (ANop true) [])", c08N(c08Assess), c08Coin(m.amount), rc, bp)}
 	}
 }
 
@@ -468,6 +527,9 @@ func c08Required(c *c08Config, msgs []c08Msg, nested bool) sdk.Coins {
 	req := sdk.NewCoins()
 	var walk func(m c08Msg)
 	walk = func(m c08Msg) {
+		if nested && m.payOK {
+			req = req.Add(m.post...) // not visible to the mempool check
+		}
 		for _, e := range c.schedule {
 			if e.kind == m.kind && e.coin.IsPositive() {
 				req = req.Add(e.coin)
@@ -728,6 +790,7 @@ type c08Plan struct {
 		a    c08Allow
 	}
 	feeMode, balMode, grantMode, gasMode, bodyMode string
+	payWork map[string]c08Payment // the open payments if this transaction succeeds
 }
 
 func (g *c08Gen) plan(st *c08State) *c08Plan {
@@ -738,7 +801,91 @@ func (g *c08Gen) plan(st *c08State) *c08Plan {
 	t.payer = 1 + r.Intn(c08NAcc)
 	g.cfg = p.cfg
 	failShare := 8
-	if p.cfg.shared > 0 && r.Intn(3) != 0 {
+	if r.Intn(10) < 3 {
+		// x/exchange payments: the handler records a flat fee on the fee gas meter after it succeeded
+		// a good share: nothing but the handler's own fee is due beyond the base fee, and the declared
+		// fee is exactly the base fee - the sweep has nothing left and only the final subtraction
+		// in DeductFeesDistributions stands between the payer and an undeclared charge
+		exactBase := r.Intn(100) < 40
+		if exactBase {
+			p.cfg.schedule = nil
+			if p.cfg.payCreate.IsZero() {
+				p.cfg.payCreate = sdk.Coins{sdk.NewInt64Coin(c08Denoms[0], int64(1+r.Intn(100_000)))}
+			}
+			if p.cfg.payAccept.IsZero() {
+				p.cfg.payAccept = sdk.Coins{sdk.NewInt64Coin(c08Denoms[0], int64(1+r.Intn(100_000)))}
+			}
+		}
+		work := map[string]c08Payment{}
+		var keys []string
+		for k, v := range g.n.payments {
+			work[k] = v
+			keys = append(keys, k)
+		}
+		sort.Strings(keys)
+		amt := func(zeroShare int) sdk.Coins {
+			if r.Intn(100) < zeroShare {
+				return nil
+			}
+			return sdk.NewCoins(sdk.NewInt64Coin(c08Denoms[3], int64(1+r.Intn(500))))
+		}
+		mkCreate := func(source int) c08Msg {
+			pay := c08Payment{source: source, target: g.otherThan(source), srcAmt: amt(10), tgtAmt: amt(40)}
+			if pay.srcAmt.IsZero() && pay.tgtAmt.IsZero() {
+				pay.srcAmt = sdk.NewCoins(sdk.NewInt64Coin(c08Denoms[3], 7))
+			}
+			g.n.payCount++
+			pay.extID = fmt.Sprintf("p%d", g.n.payCount)
+			if len(keys) > 0 && r.Intn(12) == 0 { // an external id the source already uses: the handler fails
+				if ex := work[keys[r.Intn(len(keys))]]; ex.source == source {
+					pay.extID = ex.extID
+				}
+			}
+			m := c08Msg{kind: c08PayCreate, from: source, pay: pay}
+			if _, dup := work[pay.key()]; !dup {
+				m.payOK = true
+				work[pay.key()] = pay
+				if !pay.srcAmt.IsZero() {
+					m.post = p.cfg.payCreate
+				}
+			}
+			return m
+		}
+		if len(keys) > 0 && r.Intn(2) == 0 {
+			pay := work[keys[r.Intn(len(keys))]]
+			t.payer = pay.target
+			m := c08Msg{kind: c08PayAccept, from: pay.target, pay: pay, payOK: true}
+			if r.Intn(10) == 0 { // not the payment that is in state
+				m.pay.tgtAmt = m.pay.tgtAmt.Add(sdk.NewInt64Coin(c08Denoms[3], 1))
+				m.payOK = false
+			} else {
+				delete(work, pay.key())
+				if !pay.tgtAmt.IsZero() {
+					m.post = p.cfg.payAccept
+				}
+			}
+			t.msgs = append(t.msgs, m)
+		} else {
+			t.msgs = append(t.msgs, mkCreate(t.payer))
+		}
+		extra := r.Intn(5)
+		if exactBase && extra == 2 {
+			extra = 1
+		}
+		switch extra {
+		case 0:
+			t.msgs = append(t.msgs, mkCreate(t.payer))
+		case 1:
+			t.msgs = append(t.msgs, c08Msg{kind: c08Send, from: t.payer, to: g.otherThan(t.payer), coins: g.sendCoins(st, t.payer, false)})
+		case 2:
+			t.msgs = append(t.msgs, g.genAssess(t.payer))
+		}
+		p.payWork = work
+		p.bodyMode = "exchange-payment"
+		if exactBase {
+			p.bodyMode = "exchange-payment-only-handler-fee"
+		}
+	} else if p.cfg.shared > 0 && r.Intn(3) != 0 {
 		// 2-3 messages of DIFFERENT fee-bearing types: a send, a custom assessed fee, an exec wrapping either
 		failShare = 3
 		kinds := []int{c08Send, c08Assess, c08Exec}
@@ -832,6 +979,34 @@ func (g *c08Gen) plan(st *c08State) *c08Plan {
 		p.feeMode = "first-denom-only"
 	}
 
+	if p.bodyMode == "exchange-payment-only-handler-fee" {
+		switch k := r.Intn(100); {
+		case k < 70:
+			t.fee, p.feeMode = base, "exactly-base"
+		case k < 85:
+			t.fee, p.feeMode = reqAll, "exact"
+		default:
+			t.fee, p.feeMode = minusOne(reqAll), "one-below"
+		}
+	}
+	if p.bodyMode == "exchange-payment" {
+		handler := reqAll.Sub(reqTop...) // what the handlers will record themselves
+		switch k := r.Intn(100); {
+		case k < 30:
+			t.fee, p.feeMode = reqAll, "exact"
+		case k < 55:
+			t.fee, p.feeMode = reqTop, "without-handler-fee"
+		case k < 75:
+			part := sdk.NewCoins()
+			for _, c := range handler {
+				part = part.Add(sdk.NewCoin(c.Denom, c.Amount.QuoRaw(2)))
+			}
+			t.fee, p.feeMode = reqTop.Add(part...), "handler-fee-partly"
+		case k < 85:
+			t.fee, p.feeMode = minusOne(reqAll), "one-below"
+		}
+	}
+
 	// fee grant
 	src := t.payer
 	if r.Intn(100) < 28 {
@@ -916,12 +1091,12 @@ func TestC08(t *testing.T) {
 	perHist := scale(15, 20)
 	type desc map[string]any
 
-	ample := [3]sdkmath.Int{sdkmath.NewInt(1_000_000_000_000_000), sdkmath.NewInt(1_000_000_000), sdkmath.NewInt(1_000_000_000)}
+	ample := [c08NDen]sdkmath.Int{sdkmath.NewInt(1_000_000_000_000_000), sdkmath.NewInt(1_000_000_000), sdkmath.NewInt(1_000_000_000), sdkmath.NewInt(1_000_000_000)}
 	var accts, denoms []string
 	for a := 0; a <= c08NAcc; a++ {
 		accts = append(accts, c08N(a))
 	}
-	for d := 1; d <= 3; d++ {
+	for d := 1; d <= c08NDen; d++ {
 		denoms = append(denoms, c08N(d))
 	}
 	var gasUsedMin, gasUsedMax int64
@@ -936,7 +1111,7 @@ func TestC08(t *testing.T) {
 					n.setAllow(ctx, i, j, c08Allow{})
 				}
 			}
-			for d := 0; d < 3; d++ {
+			for d := 0; d < c08NDen; d++ {
 				n.setBal(ctx, i, c08Denoms[d], ample[d])
 			}
 		}
@@ -964,7 +1139,7 @@ func TestC08(t *testing.T) {
 			// accounts run dry as the history goes on (sends, earlier balance settings): most of the
 			// time the faucet refills them, so that rejections for lack of funds stay a minority
 			for id := 1; id <= c08NAcc; id++ {
-				for d := 0; d < 3; d++ {
+				for d := 0; d < c08NDen; d++ {
 					planned := false
 					for _, sb := range p.setBal {
 						planned = planned || (sb[0].(int) == id && sb[1].(int) == d)
@@ -1085,6 +1260,9 @@ func TestC08(t *testing.T) {
 				"msgs": len(p.tx.msgs), "routed": nRouted, "fee_mode": p.feeMode, "grant_mode": p.grantMode, "balance_mode": p.balMode,
 				"gas_mode": p.gasMode, "floor": p.cfg.floor.String(), "schedule": len(p.cfg.schedule), "outcome": outcome,
 				"check_code": chkCode, "deliver_code": delCode})
+			if ok && p.payWork != nil {
+				n.payments = p.payWork
+			}
 			st = post
 		}
 		sort.Slice(pairs, func(i, j int) bool {
